@@ -601,6 +601,19 @@ class PySetOp(object):
         def __init__(self, v):
             self.v = v
 
+    class _Continue(Exception):
+        pass
+
+    def _bind(self, target, v, env, st):
+        if isinstance(target, ast.Name):
+            env[target.id] = v
+        elif isinstance(target, ast.Tuple) and isinstance(v, tuple) and v and v[0] == "tuple" \
+                and len(v) - 1 == len(target.elts):
+            for tt, vv in zip(target.elts, v[1:]):
+                self._bind(tt, vv, env, st)
+        else:
+            raise AnalysisError("set-op table (py): binding %s line %s" % (pyfront.unparse(target), st.lineno))
+
     def truth(self, v):
         if isinstance(v, dict):
             raise AnalysisError("set-op table (py): branch on a symbolic value")
@@ -690,6 +703,8 @@ class PySetOp(object):
                 return p_mul(pa, pb)
         if isinstance(e, ast.Call):
             return self.call(e, env)
+        if isinstance(e, ast.IfExp):
+            return self.ev(e.body if self.truth(self.ev(e.test, env)) else e.orelse, env)
         raise AnalysisError("set-op table (py): unrecognised expression %s line %s"
                             % (pyfront.unparse(e)[:60], getattr(e, "lineno", "?")))
 
@@ -807,8 +822,7 @@ class PySetOp(object):
                 if isinstance(v, Result):
                     self.rkind = v.kind
             elif isinstance(t, ast.Tuple) and isinstance(v, tuple) and v[0] == "tuple":
-                for tt, vv in zip(t.elts, v[1:]):
-                    env[tt.id] = vv
+                self._bind(t, v, env, st)
             else:
                 raise AnalysisError("set-op table (py): assignment %s" % pyfront.unparse(st))
         elif isinstance(st, ast.If):
@@ -816,8 +830,26 @@ class PySetOp(object):
         elif isinstance(st, ast.While):
             self.act.armed = True
             if self.truth(self.ev(st.test, env)):
-                self.block(st.body, env)
+                try:
+                    self.block(st.body, env)
+                except PySetOp._Continue:
+                    pass
                 raise _Stop()
+        elif isinstance(st, ast.For):
+            # a loop over a literal tuple (e.g. the two cursors with their
+            # weights): unrolled
+            it = self.ev(st.iter, env)
+            if not (isinstance(it, tuple) and it and it[0] == "tuple"):
+                raise AnalysisError("set-op table (py): loop over %s line %s" % (
+                    pyfront.unparse(st.iter)[:40], st.lineno))
+            for item in it[1:]:
+                self._bind(st.target, item, env, st)
+                try:
+                    self.block(st.body, env)
+                except PySetOp._Continue:
+                    pass
+        elif isinstance(st, ast.Continue):
+            raise PySetOp._Continue()
         elif isinstance(st, ast.FunctionDef):
             env[st.name] = ("closure", st, env)
         elif isinstance(st, ast.Return):
